@@ -17,6 +17,7 @@
 package main
 
 import (
+	"go.uber.org/multierr"
 	"bufio"
 	"context"
 	"encoding/json"
@@ -109,7 +110,16 @@ func (st *runState[T, C]) onConsume(c int, d T) error {
 // failure is handed back bare, as a permanent error, or wrapping / joined with a context error of the consumer's own (its
 // export timed out, its worker was stopped) -- the caller's context is alive in every scenario (seeded change C06-6 stopped
 // the fan-out when a consumer's error looked like an expired request).  errors.Is(err, failErr(c)) holds for every shape.
+// errShared: ONE error value that several consumers return (a cached client error, a package-level sentinel): the returned
+// error must still account for every failure (seeded change C06-9 de-duplicated errors that are errors.Is-equal).
+var errShared = errors.New("shared sentinel: backend unavailable")
+
+func sharedShape(k int) bool { return k%7 >= 4 } // runs of three consecutive indices: several consumers of one scenario share it
+
 func shaped(err error, k int) error {
+	if sharedShape(k) {
+		return errShared
+	}
 	switch k % 5 {
 	case 1:
 		return fmt.Errorf("%w: %w", err, context.DeadlineExceeded)
@@ -195,7 +205,21 @@ func runScenario[T any, C capser](ops sigOps[T, C], sc scenario, out *json.Encod
 		err = ops.consume(fan, context.Background(), st.src)
 	}()
 	has := []int{}
+	// consumers that failed with the shared sentinel cannot be told apart in the aggregate: they are accounted for by COUNT
+	nShared := 0
+	for _, e := range multierr.Errors(err) {
+		if e == errShared {
+			nShared++
+		}
+	}
 	for c := 1; c <= sc.N; c++ {
+		if sc.Fail[c-1] && sharedShape(sc.ID+c) {
+			if nShared > 0 {
+				nShared--
+				has = append(has, c)
+			}
+			continue
+		}
 		if errors.Is(err, failErr(c)) {
 			has = append(has, c)
 		}
